@@ -23,8 +23,11 @@ import (
 	"math/big"
 	"os"
 	"path/filepath"
+	"runtime"
 	"strings"
 	"sync"
+	"sync/atomic"
+	"time"
 
 	"keepverif/harness/hx"
 
@@ -36,6 +39,24 @@ type fakeChain struct {
 	prev  string // hex text | - | !
 	blk   string // decimal | !
 	calls int
+	// concurrent batches: a chain call lingers until a second caller is inside as well (or a
+	// few milliseconds passed). With the method body under one mutex no second caller can ever
+	// arrive, so this changes timing only, never an answer; it widens check-then-act windows.
+	rendezvous bool
+	inside     int32
+}
+
+func (c *fakeChain) linger() {
+	if !c.rendezvous {
+		return
+	}
+	atomic.AddInt32(&c.inside, 1)
+	deadline := time.Now().Add(3 * time.Millisecond)
+	for atomic.LoadInt32(&c.inside) < 2 && time.Now().Before(deadline) {
+		runtime.Gosched()
+	}
+	time.Sleep(200 * time.Microsecond)
+	atomic.AddInt32(&c.inside, -1)
 }
 
 func (c *fakeChain) set(prev, blk string) {
@@ -45,6 +66,7 @@ func (c *fakeChain) set(prev, blk string) {
 }
 
 func (c *fakeChain) CurrentRequestStartBlock() (*big.Int, error) {
+	c.linger()
 	c.mu.Lock()
 	defer c.mu.Unlock()
 	c.calls++
@@ -59,6 +81,7 @@ func (c *fakeChain) CurrentRequestStartBlock() (*big.Int, error) {
 }
 
 func (c *fakeChain) CurrentRequestPreviousEntry() ([]byte, error) {
+	c.linger()
 	c.mu.Lock()
 	defer c.mu.Unlock()
 	c.calls++
@@ -155,6 +178,7 @@ func exec(op string) (string, string) {
 			pre = append(pre, outcome(ok, err))
 		}
 		ns := hx.SplitList(f[4])
+		ch.rendezvous = true
 		outs := make([]string, len(ns))
 		start := make(chan struct{})
 		var wg sync.WaitGroup
